@@ -3,6 +3,7 @@ package main
 // Loop cutting: invariants, havoc sets, automatically inferred glue equalities.
 
 import (
+	"go/token"
 	"fmt"
 	"go/types"
 	"sort"
@@ -30,6 +31,10 @@ type glueCand struct {
 	G    string // ghost name
 	Name string
 	Down bool // descending counter: phi == entry(phi) - ghost + Off, entry(phi) = the phi's value when the path reached the loop
+	// guard candidates (rotated loops, e.g. range over an integer): "phi Rel Bound", read off the branch
+	// conditions that guard the edges into the header; Bound is defined outside the loop
+	Rel   string
+	Bound ssa.Value
 }
 
 func (vc *FuncVC) loopInfoFor(fn *ssa.Function) *loopInfo {
@@ -310,6 +315,16 @@ func (vc *FuncVC) glueTerm(st *State, fr *Frame, gc glueCand, entry map[*ssa.Phi
 		}
 	}
 	t := pv.T
+	if gc.Rel != "" {
+		bv, ok := vc.val(st, fr, gc.Bound).(V)
+		if !ok || bv.S != SInt {
+			return "true"
+		}
+		if gc.Rel == "!=" {
+			return not(eq(t, bv.T))
+		}
+		return app(gc.Rel, t, bv.T)
+	}
 	if gc.Sel != "" {
 		t = app(gc.Sel, t)
 	}
@@ -374,7 +389,85 @@ func (vc *FuncVC) glueCandidates(st *State, fr *Frame, phis []*ssa.Phi, wr *loop
 			}
 		}
 	}
+	out = append(out, guardCandidates(phis)...)
 	return out
+}
+
+// guardCandidates: for every edge into the loop header that is taken under a comparison between the
+// phi's incoming value and a value defined outside the loop, the same comparison with the phi itself.
+func guardCandidates(phis []*ssa.Phi) []glueCand {
+	var out []glueCand
+	seen := map[string]bool{}
+	neg := map[token.Token]string{token.LSS: ">=", token.LEQ: ">", token.GTR: "<=", token.GEQ: "<", token.NEQ: "=", token.EQL: "!="}
+	pos := map[token.Token]string{token.LSS: "<", token.LEQ: "<=", token.GTR: ">", token.GEQ: ">=", token.NEQ: "!=", token.EQL: "="}
+	flip := map[string]string{"<": ">", "<=": ">=", ">": "<", ">=": "<=", "=": "=", "!=": "!="}
+	for _, phi := range phis {
+		if b, ok := phi.Type().Underlying().(*types.Basic); !ok || b.Info()&types.IsInteger == 0 {
+			continue
+		}
+		hdr := phi.Block()
+		for i, pred := range hdr.Preds {
+			if len(pred.Instrs) == 0 || i >= len(phi.Edges) {
+				continue
+			}
+			br, ok := pred.Instrs[len(pred.Instrs)-1].(*ssa.If)
+			if !ok {
+				continue
+			}
+			cmp, ok := br.Cond.(*ssa.BinOp)
+			if !ok {
+				continue
+			}
+			rel, ok := pos[cmp.Op]
+			if !ok {
+				continue
+			}
+			if pred.Succs[0] != hdr {
+				rel = neg[cmp.Op]
+			}
+			var bound ssa.Value
+			switch {
+			case cmp.X == phi.Edges[i]:
+				bound = cmp.Y
+			case cmp.Y == phi.Edges[i]:
+				bound, rel = cmp.X, flip[rel]
+			default:
+				continue
+			}
+			if rel == "=" {
+				continue
+			}
+			if _, isConst := bound.(*ssa.Const); !isConst {
+				if in, isInstr := bound.(ssa.Instruction); isInstr {
+					lpHas := false
+					// the bound must not be computed inside the loop: it has to dominate the header
+					if !in.Block().Dominates(hdr) || in.Block() == hdr {
+						lpHas = true
+					}
+					if lpHas {
+						continue
+					}
+				}
+			}
+			name := fmt.Sprintf("guard:%s%s%s", phiKey(phi), rel, boundName(bound))
+			if seen[name] {
+				continue
+			}
+			seen[name] = true
+			out = append(out, glueCand{Phi: phi, Rel: rel, Bound: bound, Name: name})
+		}
+	}
+	return out
+}
+
+func boundName(v ssa.Value) string {
+	if c, ok := v.(*ssa.Const); ok {
+		return c.Value.ExactString()
+	}
+	if p, ok := v.(*ssa.Phi); ok {
+		return phiKey(p)
+	}
+	return describeValue(v)
 }
 
 // phiKey: a stable name for a header phi: its ordinal among the header's phis of the same type.
